@@ -56,6 +56,7 @@ type WActor struct {
 	Icon      bool   `json:"icon,omitempty"`
 	Banner    bool   `json:"banner,omitempty"`
 	Links     []WLink `json:"links,omitempty"`
+	Type      string `json:"type,omitempty"` // "" = Person; Group, Organization, Application, Service
 }
 
 type World struct {
@@ -65,6 +66,9 @@ type World struct {
 	// Hostile > 0: every name, handle, body and bio carries hostile tokens (chosen by this seed), and
 	// unfetchable URLs answer with hostile status lines / headers that end up quoted in error items.
 	Hostile int `json:"hostile,omitempty"`
+	// AliasRefs (stress and fan-out runs): listings name posts by an alias address that redirects to the post, so a
+	// page load is a burst of fetches that are all answered with a redirect
+	AliasRefs bool `json:"alias_refs,omitempty"`
 }
 
 func (w *World) hostile(i int) string {
@@ -99,6 +103,8 @@ func (w *World) ActURL(prefix string, a, k int) string {
 func (w *World) MissingURL(prefix string, n int) string {
 	return "https://%H0%" + prefix + fmt.Sprintf("/missing%d", n)
 }
+func rapid302(i int) int { return []int{301, 302, 303, 307, 308}[i%5] }
+
 func ExternalURL(i int) string { return fmt.Sprintf("https://external.invalid/E%dX", i) }
 
 func (w *World) LinkURL(prefix string, l WLink) string {
@@ -159,6 +165,14 @@ func (w *World) Install(sim *vsim.Sim, prefix string) {
 		path := u[strings.Index(u, prefix):]
 		sim.Set(0, path, vsim.JSON(doc))
 	}
+	ref := func(i int) string {
+		if !w.AliasRefs {
+			return w.PostURL(prefix, i)
+		}
+		alias := "https://%H0%" + prefix + fmt.Sprintf("/alias/p%d", i)
+		sim.Set(0, prefix+fmt.Sprintf("/alias/p%d", i), vsim.Redirect(rapid302(i), w.PostURL(prefix, i)))
+		return alias
+	}
 	for i, p := range w.Posts {
 		content := "<p>body of " + PostTok(i) + w.hostile(3*i) + "</p>"
 		for _, l := range p.Links {
@@ -198,7 +212,7 @@ func (w *World) Install(sim *vsim.Sim, prefix string) {
 				case "missing":
 					items = append(items, w.MissingURL(prefix, 100*i+k))
 				default:
-					items = append(items, w.PostURL(prefix, e.Post))
+					items = append(items, ref(e.Post))
 				}
 			}
 			repliesURL := w.PostURL(prefix, i) + "/replies"
@@ -213,7 +227,11 @@ func (w *World) Install(sim *vsim.Sim, prefix string) {
 		for _, l := range a.Links {
 			summary += fmt.Sprintf(`<p><a href="%s">link</a></p>`, w.LinkURL(prefix, l))
 		}
-		m := map[string]any{"id": w.ActorURL(prefix, j), "type": "Person", "name": ActorTok(j) + w.hostile(101+3*j), "preferredUsername": fmt.Sprintf("user%d", j) + strings.TrimSpace(w.hostile(102+3*j)), "summary": summary}
+		actorType := a.Type
+		if actorType == "" {
+			actorType = "Person"
+		}
+		m := map[string]any{"id": w.ActorURL(prefix, j), "type": actorType, "name": ActorTok(j) + w.hostile(101+3*j), "preferredUsername": fmt.Sprintf("user%d", j) + strings.TrimSpace(w.hostile(102+3*j)), "summary": summary}
 		if a.Icon {
 			m["icon"] = map[string]any{"type": "Image", "url": ExternalURL(6000 + j), "mediaType": "image/png"}
 		}
@@ -233,7 +251,7 @@ func (w *World) Install(sim *vsim.Sim, prefix string) {
 				if act.Bad == "other-actor" {
 					actor = w.ActorURL(prefix, (j+1)%len(w.Actors))
 				}
-				doc := map[string]any{"id": u, "type": act.Kind, "actor": actor, "object": w.PostURL(prefix, act.Post), "published": stampTime(act.Stamp)}
+				doc := map[string]any{"id": u, "type": act.Kind, "actor": actor, "object": ref(act.Post), "published": stampTime(act.Stamp)}
 				if act.Bad == "no-actor" {
 					delete(doc, "actor")
 				}
@@ -310,7 +328,7 @@ func GenWorld(t *rapid.T) *World {
 	}
 	stamp := 0
 	for j := 0; j < na; j++ {
-		a := WActor{NoOutbox: rapid.IntRange(0, 6).Draw(t, "nooutbox") == 0, OutboxPer: rapid.SampledFrom([]int{0, 1, 2, 3, 5}).Draw(t, "outboxper"),
+		a := WActor{Type: rapid.SampledFrom([]string{"", "", "", "Group", "Group", "Organization", "Application", "Service"}).Draw(t, "actortype"), NoOutbox: rapid.IntRange(0, 6).Draw(t, "nooutbox") == 0, OutboxPer: rapid.SampledFrom([]int{0, 1, 2, 3, 5}).Draw(t, "outboxper"),
 			Icon: rapid.Bool().Draw(t, "icon"), Banner: rapid.Bool().Draw(t, "banner")}
 		n := rapid.IntRange(0, 12).Draw(t, "nacts")
 		for k := 0; k < n; k++ {
